@@ -245,7 +245,9 @@ def _type_base(t):
 def _impl_self(key, trait_marker):
     """Self type of a root key `<Self as Trait<..>>::method`"""
     if not key.startswith('<'):
-        return None
+        # `module::<impl Trait<..> for Self>::method` (an impl written in another module than the type)
+        m = re.search(r"<impl (?:%s)[^>]*(?:<[^<>]*>)? for (.*)>::\w+$" % re.escape(trait_marker), key)
+        return _type_base(m.group(1)) if m else None
     i = key.rfind(' as ' + trait_marker)
     return _type_base(key[1:i]) if i > 0 else None
 
@@ -321,9 +323,12 @@ def check_field_visitor(run, L, path, fields, root_key, strict):
         if taken:
             t = taken[-1]
             strs = [L.terms[x][1] for x in t[2] if L.terms[x][0] == 's']
-            if v.get('n') == 'Ok' and len(strs) == 1 and 'e' in v['f'][0]:
-                name_to_variant[strs[0]] = v['f'][0]['e']
-                names_of[strs[0]] = v['f'][0]['n']
+            pay = v['f'][0] if v.get('n') == 'Ok' and v.get('f') else {}
+            while isinstance(pay, dict) and 'a' in pay and 'closure' not in pay and len(pay['a']) == 1:
+                pay = pay['a'][0]          # a one-field wrapper around the identifier (`Key(field)`)
+            if v.get('n') == 'Ok' and len(strs) == 1 and isinstance(pay, dict) and 'e' in pay:
+                name_to_variant[strs[0]] = pay['e']
+                names_of[strs[0]] = pay['n']
             else:
                 good = False
         else:
@@ -401,11 +406,19 @@ def decode_guard(L, tid):
     y = unproj(x, 0)
     if y is not None and call_of(L.terms[y]):
         return ('option', call_of(L.terms[y]), y)
-    y1 = unproj(x, 1)
-    if y1 is not None:
-        y0 = unproj(L.terms[y1], 0)
-        if y0 is not None and call_of(L.terms[y0]):
-            return ('key', call_of(L.terms[y0]), y0)
+    # the key may sit inside one-field wrappers (`Key(field)`): plain projections on field 0 around Some's payload
+    xx = x
+    for _ in range(3):
+        y1 = unproj(xx, 1)
+        if y1 is not None:
+            y0 = unproj(L.terms[y1], 0)
+            if y0 is not None and call_of(L.terms[y0]):
+                return ('key', call_of(L.terms[y0]), y0)
+            return None
+        if xx[0] == 'a' and xx[1] == 'proj' and L.terms[xx[2][1]] == ['i', '0']:
+            xx = L.terms[xx[2][0]]
+        else:
+            break
     return None
 
 
